@@ -165,7 +165,12 @@ class Ctx:
         k = (key, depth, policy, frozenset(skip_root_sites))
         if k not in self._regions:
             if policy == "private":
-                pol = private_only_policy(self.fx)
+                base0 = private_only_policy(self.fx)
+                root_file = (self.fx.fns[key].get("at") or "").split(":")[0]
+                # conversions written next to the root (`impl TryFrom<&X> for Tree` instead of `fn convert(&X) -> Result<Tree>`) are
+                # its helpers in another spelling
+                pol = lambda fn: base0(fn) or (fn["kind"] == "AssocFn" and (fn.get("impl_trait") or "") in ("std::convert::From", "std::convert::TryFrom")
+                                               and not fn.get("exp") and (fn.get("at") or "").split(":")[0] == root_file)
             elif policy == "all-local":
                 pol = lambda fn: fn["kind"] in ("Fn", "AssocFn")        # every local function, public ones and trait impls included
             elif isinstance(policy, tuple) and policy[0] == "private-except":
